@@ -105,6 +105,14 @@ def replay_rel(case) -> dict:
                 orient=case["orient"], even=[n % 2 == 0 for n in shape])
     fails = []
     M = _models()[case["model"]]
+    # argument forms: float64 sub-volume, boolean mask array, quaternion / position given as lists
+    form = case["seed"] % 4
+    if form == 1:
+        sub = sub.astype(np.float64)
+    elif form == 2 and case["mask"] == "binary":
+        mask = mask.astype(bool)
+    elif form == 3:
+        quat = [float(x) for x in quat]
     model = M(tmpl, mask, **kw)
     sc = float(engine.api(model.score, sub, quat, ZERO))
     normalised = case["model"] in ("ZNCC", "NCC", "FSC")
